@@ -46,7 +46,30 @@ var vcMu sync.Mutex
 // curAxioms: definitional axioms of recursive specification functions for the function being discharged
 var curAxioms []*Term
 
+// A proof of the quantifier-free relaxation (all quantified hypotheses removed) is a proof of the
+// obligation; a model of it is only a candidate counterexample.
+func isQuantified(t *Term) bool {
+	switch t.Op {
+	case "forall", "exists":
+		return true
+	case "=>":
+		return isQuantified(t.Args[1])
+	case "and":
+		for _, a := range t.Args {
+			if !isQuantified(a) {
+				return false
+			}
+		}
+		return len(t.Args) > 0
+	}
+	return false
+}
+
 func buildVC(o *Obligation, assumptions []*Term, modelVars []*Term) string {
+	return buildVC2(o, assumptions, modelVars, false)
+}
+
+func buildVC2(o *Obligation, assumptions []*Term, modelVars []*Term, dropQuantified bool) string {
 	vcMu.Lock()
 	defer vcMu.Unlock()
 	var asserts []*Term
@@ -67,6 +90,25 @@ func buildVC(o *Obligation, assumptions []*Term, modelVars []*Term) string {
 			hyps = hs
 		}
 	}
+	if dropQuantified {
+		var qf []*Term
+		for _, h := range hyps {
+			if h.Op == "and" {
+				var keep []*Term
+				for _, a := range h.Args {
+					if !isQuantified(a) {
+						keep = append(keep, a)
+					}
+				}
+				h = And(keep...)
+			}
+			if !isQuantified(h) {
+				qf = append(qf, h)
+			}
+		}
+		hyps = qf
+		asserts = nil // the definitional axioms of recursive specification functions are quantified too
+	}
 	asserts = append(asserts, hyps...)
 	asserts = append(asserts, o.PC)
 	if !o.Vacuity {
@@ -81,7 +123,9 @@ func buildVC(o *Obligation, assumptions []*Term, modelVars []*Term) string {
 	}
 	var sb strings.Builder
 	sb.WriteString("(set-option :produce-models true)\n(set-logic ALL)\n")
+	relaxRowCopy = dropQuantified
 	sb.WriteString(SMTScript(asserts, nil, named))
+	relaxRowCopy = false
 	sb.WriteString("(check-sat)\n")
 	// model values for the scalar inputs that occur
 	order2, _ := collect(asserts)
@@ -316,6 +360,22 @@ func dischargeAll(res *FuncResult, dir string, timeoutS, seed, par int, modelVar
 						o.Status = "proved"
 					}
 				}
+				if o.Status == "unknown" && !noRelax {
+					vc3 := buildVC2(o, res.Assumptions, modelVars, true)
+					f3 := strings.TrimSuffix(file, ".smt2") + "_qf.smt2"
+					if len(vc3) < maxVCBytes {
+						os.WriteFile(f3, []byte(vc3), 0o644)
+						r3 := solve(f3, tmo, seed)
+						o.Ms += r3.ms
+						switch r3.status {
+						case "unsat":
+							o.Status, o.Solver = "proved", r3.solver+"(quantifier-free relaxation)"
+						case "sat":
+							o.Model = parseModel(r3.output)
+							o.Note += " | candidate model from the quantifier-free relaxation (quantified hypotheses dropped; may be spurious)"
+						}
+					}
+				}
 			}
 		}(o, file)
 	}
@@ -354,6 +414,7 @@ func dischargeAll(res *FuncResult, dir string, timeoutS, seed, par int, modelVar
 }
 
 var noRetry bool
+var noRelax bool
 
 func boundBase(b *Term) string {
 	if i := strings.Index(b.Name, "?"); i >= 0 {
